@@ -321,7 +321,7 @@ def static_unspecified(stmts, comp=frozenset(), exc=frozenset(), lets=(), in_com
             if s[1] in exc:
                 return "defn/defclass/import of the except variable inside its handler"
             if lets.count(s[1]) >= 2:
-                return "defn/defclass/import of a name bound by two nested lets (docs speak of 'a let binding')"
+                return "defn/defclass/import of a name bound by two nested let / except bindings (docs speak of 'a let binding')"
         if op == "clo":
             if s[1] == "defn" and in_comp:
                 return "defn/defclass/import inside a comprehension body (visibility outside is not documented)"
@@ -333,7 +333,7 @@ def static_unspecified(stmts, comp=frozenset(), exc=frozenset(), lets=(), in_com
         elif op == "lfor":
             r = static_unspecified(s[4], comp | {s[1]}, exc - {s[1]}, lets, True)
         elif op == "exc":
-            r = static_unspecified(s[3], comp - {s[1]}, exc | {s[1]}, lets, in_comp)
+            r = static_unspecified(s[3], comp - {s[1]}, exc | {s[1]}, lets + (s[1],), in_comp)
         elif op in ("with", "match"):
             r = static_unspecified(s[3], comp, exc, lets, in_comp)
         if r:
